@@ -64,10 +64,10 @@ def build(pid, builds):
     return bdir, results
 
 
-def run_one(cmd, timeout):
+def run_one(cmd, timeout, env=None):
     t0 = time.time()
     try:
-        p = subprocess.run(cmd, stdout=subprocess.PIPE, stderr=subprocess.STDOUT, text=True, timeout=timeout)
+        p = subprocess.run(cmd, stdout=subprocess.PIPE, stderr=subprocess.STDOUT, text=True, timeout=timeout, env=env)
         return p.returncode, p.stdout[-4000:], time.time() - t0
     except subprocess.TimeoutExpired as e:
         return -999, (e.stdout or "")[-2000:] if isinstance(e.stdout, str) else "", time.time() - t0
@@ -149,7 +149,7 @@ def main():
         if r["driver"] in build_failures:
             continue
         ns = r.get("slices", 64)
-        for s in range(ns):
+        for s in range(min(ns, r.get("slice_subset", ns))):
             outp = os.path.join(bdir, "%s.%s.%d.json" % (r["driver"], r.get("tag", "r"), s))
             cmd = [os.path.join(bdir, r["driver"])] + r["args"] + ["--tier", tier, "--slice", str(s), "--nslices", str(ns),
                                                                   "--out", outp, "--deadline", str(deadline), "--seed", str(seed)]
@@ -157,7 +157,12 @@ def main():
     hard_timeout = deadline + 600
     env_workers = int(os.environ.get("VERIF_JOBS", NCPU))
     with concurrent.futures.ThreadPoolExecutor(max_workers=env_workers) as ex:
-        futs = {ex.submit(run_one, cmd, hard_timeout): (r, cmd, outp) for r, cmd, outp in jobs}
+        run_env = dict(os.environ)
+        run_env.update(chk.get("env", {}))
+        if chk.get("dump_graphs"):
+            os.makedirs(os.path.join(bdir, "graphs"), exist_ok=True)
+            run_env["VF_DUMP_GRAPH_DIR"] = os.path.join(bdir, "graphs")
+        futs = {ex.submit(run_one, cmd, hard_timeout, run_env): (r, cmd, outp) for r, cmd, outp in jobs}
         for fu in concurrent.futures.as_completed(futs):
             r, cmd, outp = futs[fu]
             rc, out, dt = fu.result()
@@ -198,6 +203,9 @@ def main():
                     merged["counters"][k] = merged["counters"].get(k, 0) + v
             for v in rep.get("violations", []):
                 v = dict(v)
+                if "only_keys" in chk and not re.fullmatch(chk["only_keys"], v["key"]):
+                    merged["counters"]["violations_of_other_properties_ignored"] = merged["counters"].get("violations_of_other_properties_ignored", 0) + 1
+                    continue
                 v["driver"] = r["driver"]
                 v["replay_args"] = r["args"] + ["--replay", v["case"]] + r.get("replay_extra", [])
                 ex_ = [x for x in violations if x["key"] == v["key"]]
@@ -205,6 +213,12 @@ def main():
                     ex_[0]["count"] += v.get("count", 1)
                 else:
                     violations.append(v)
+
+    # ---- optional post-processing step of the check (e.g. TLC cross-check of the explored state spaces)
+    post_cov = {}
+    if "post" in chk:
+        pv, post_cov = chk["post"](bdir, tier)
+        violations += pv
 
     # ---- classify: replay first, then known findings ------------------------------------------------------
     findings = load_findings()
@@ -252,6 +266,7 @@ def main():
                     "evaluations": merged["evaluations"], "distinct_nontrivial": merged["nontrivial"]})
     else:
         cov.update({"evaluations": merged["evaluations"], "distinct_nontrivial": merged["nontrivial"]})
+    cov.update(post_cov)
     if "extra_coverage" in chk:
         cov.update(chk["extra_coverage"](tier, merged))
     ev = {"property_id": pid, "tier": tier, "seed": seed, "level": level, "coverage": cov,
